@@ -39,7 +39,7 @@ def cases(tier, seed):
 
 
 def special_cases(tier, seed):
-    """(a) single RPCs far larger than the send-buffer capacity (17 MiB with capacity 0 / 1 KB, 40 MB with the default 16 MB):
+    """(a) single RPCs far larger than the send-buffer capacity (17 MiB with capacity 0 / 1 KB, 72 MB (more than 64 MiB) with the default 16 MB):
     one physical MPI message each, which must fit the posted receive slots; (b) round-robin (cyclic) placement of ranks on
     nodes, where node members are not contiguous rank ranges (trace acceptor with RouterP's cyclic placement).  The huge
     messages are judged by the delivery / barrier oracles only (the trace acceptor needs the payload bytes in the log)."""
@@ -47,7 +47,7 @@ def special_cases(tier, seed):
     out = []
     params = {"maxfan": 1, "hprog": 0, "hcb": 0, "hbc": 0}
     for (N, P) in ((1, 2), (2, 2)):
-        for kb, size in ((0, 17 << 20), (1, (17 << 20) + 5), (None, 40 * 1000 * 1000)):
+        for kb, size in ((0, 17 << 20), (1, (17 << 20) + 5), (None, 72 * 1000 * 1000)):
             n = N * P
             ops = [(0, 0, "async", (1 << 22) + 1, n - 1, size, 0), (0, n - 1, "async", (1 << 22) + 2, 0, 8, 1)]
             if kb is None:
@@ -81,7 +81,7 @@ def run(tier, seed, model_ok=True):
     res.rule = ("[a quarter of the generated scenarios also run barriers of a SECOND ygm::comm living in the same process between the epochs; its events are removed from the judged history] " +
                 "seeded message DAGs (main-context asyncs/bcasts/mcasts, handler scripts that send again, payloads 0..40 kB incl. > capacity) x layouts x 3 routings x "
                 "capacity {0,1KB,16MB} x irecvs x isends_wait x issend x policy; non-trivial = handlers ran; distinct = (config, scenario shape). "
-                "Oracle-only families: single RPCs of 17 MiB (capacity 0 / 1 KB) and 40 MB (default capacity); round-robin (cyclic) placement of ranks on nodes "
+                "Oracle-only families: single RPCs of 17 MiB (capacity 0 / 1 KB) and 72 MB (default capacity); round-robin (cyclic) placement of ranks on nodes "
                 "for 2x2..4x2 layouts x 3 routings. simmpi aborts a rank that modifies a send buffer before completion or posts overlapping receive buffers")
     res.assumptions = ["schedules sampled by seeded policies", "finite generated message DAGs"]
     binary, err = C.build_harness("traffic")
